@@ -122,6 +122,9 @@ func (c *lockClient) step(emptyOnce *bool) {
 			v = "" // one empty value per history
 		}
 		old := c.last[id]
+		if c.rng.Intn(10) == 0 {
+			v = string(old.Bytes()) // write back the value that was fetched
+		}
 		op.In = lockIn{Kind: "replace", ID: id, Old: string(old.Bytes()), New: v}
 		op.Call = monoNow()
 		nl, err := c.b.Replace(ctx, old, []byte(v))
@@ -235,6 +238,9 @@ func checkLockHistory(r *Run, backend, workload string, ops []lockOp, info any) 
 		}
 		switch o.In.Kind {
 		case "replace":
+			if o.In.New == o.In.Old {
+				continue // writing back the same value leaves the predecessor in place
+			}
 			k := fmt.Sprint(o.In.ID, "/", o.In.Old)
 			byOld[k]++
 			if byOld[k] > 1 {
